@@ -183,7 +183,7 @@ def sign_op(r, tier, allow_empty_path, bad=False):
 
 
 def gen_aws(rng, tier, mult):
-    n = (500 if tier == "quick" else 6000) * mult
+    n = (2000 if tier == "quick" else 20000) * mult
     cases = [["kat %d" % i for i in range(7)]]
     for ci in range(n):
         r = rng.fork("a%d" % ci)
@@ -237,9 +237,10 @@ def classify(case, out):
             tags.append("expiry:" + ("negative" if e < 0 else "0" if e == 0 else "INT_MAX" if e == INT_MAX else "<=604800" if e <= 604800 else "large"))
         sec = _unhex(t[2])
         tags.append("AWS4+secret:" + ("<=64" if len(sec) + 4 <= 64 else ">64 (key is hashed)"))
-        ln = max(len(_unhex(x)) for x in t[1:6] if x != "ABSENT" and len(x) < 500)
-        tags.append("longest-name:" + ("0..24" if ln <= 24 else "25..127" if ln < 128 else "128..200"))
-        if any(len(_unhex(x)) == 0 for x in (t[1], t[3], t[4])):
+        names = [t[1], t[3], t[4]] + ([t[5], t[6]] if op in ("s3h", "s3q") else [])    # all strings but secret and body
+        ln = max(len(_unhex(x)) for x in names)
+        tags.append("longest-name:" + ("0..24" if ln <= 24 else "25..127" if ln < 128 else "128..199" if ln < 200 else "200"))
+        if any(x == "-" for x in names):
             tags.append("some-name-empty")
     return tags
 
@@ -258,7 +259,9 @@ def components(ctx):
              "empty / 1 byte / SHA-256 block boundaries / up to 100 KiB (thorough), expiry over int incl. INT_MIN/INT_MAX; 15% of cases make "
              "several calls with the clock moving in between; 15% use characters outside the domain (compared with the model only); "
              "non-trivial = at least one signing call; distinct by hash of the op list",
-        classify=classify, cpu=[], ldflags=["-Wl,--wrap=time"])]
+        classify=classify, cpu=[], ldflags=["-Wl,--wrap=time"],
+        # the harness runs in a zone 13:30 ahead of UTC: a signature computed from local time would differ
+        env={"TZ": "VRF-13:30"})]
 
 
 def check(ctx):
